@@ -655,7 +655,9 @@ fn exec_inner(t: &[&str]) -> Option<Out> {
             Some(Out { line: "end".into(), out: "end".into(), fails: vec![], stats: vec![], nontrivial: false })
         }
         ["h", now, inst, _ck, keys, sg, name, ty, _orcs, recs @ ..] => {
-            let now: u32 = now.parse().ok()?;
+            // CLOCK: the u64 wall clock `Time::current_time()` returns; the validator uses `as u32`
+            let clock: u64 = now.parse().ok()?;
+            let now: u32 = clock as u32;
             let inst: u64 = inst.parse().ok()?;
             let ks: Vec<K> = if *keys == "-" {
                 vec![]
@@ -667,23 +669,37 @@ fn exec_inner(t: &[&str]) -> Option<Out> {
                     })
                     .collect::<Option<Vec<_>>>()?
             };
-            let s = S::parse(sg)?;
+            // all RRSIGs of the RRset, in message order
+            let sigs: Vec<S> = sg.split('|').map(S::parse).collect::<Option<Vec<_>>>()?;
             let name_n = N::parse(name)?;
             let ty: u16 = ty.parse().ok()?;
             let recs_n: Vec<Rec> = recs.iter().map(|r| Rec::parse(r)).collect::<Option<Vec<_>>>()?;
             let records: Vec<Record> = recs_n.iter().map(|r| r.to_record()).collect::<Option<Vec<_>>>()?;
-            let srec = s.to_record()?;
+            let srecs: Vec<Record> = sigs.iter().map(|s| s.to_record()).collect::<Option<Vec<_>>>()?;
             let name_h = name_n.to_name()?;
             let query = Query::new(name_h.clone(), RecordType::from(ty));
-            let ck = hex(&cache_key_stream(&query, &name_h, RecordType::from(ty), &records, std::slice::from_ref(&srec)));
-            let orcs = if ks.is_empty() { "-".to_string() } else { ks.iter().map(|k| oracle_tok(k, &s, &name_n, &records)).collect::<Vec<_>>().join("|") };
+            let ck = hex(&cache_key_stream(&query, &name_h, RecordType::from(ty), &records, &srecs));
+            let orcs = if ks.is_empty() {
+                "-".to_string()
+            } else {
+                sigs.iter().map(|s| ks.iter().map(|k| oracle_tok(k, s, &name_n, &records)).collect::<Vec<_>>().join("|")).collect::<Vec<_>>().join(",")
+            };
             let keys_tok = if ks.is_empty() { "-".to_string() } else { ks.iter().map(|k| format!("{};S", k.tok())).collect::<Vec<_>>().join("|") };
             let line = format!(
-                "h {now} {inst} {ck} {keys_tok} {} {} {ty} {orcs}{}",
-                s.tok(),
+                "h {clock} {inst} {ck} {keys_tok} {} {} {ty} {orcs}{}",
+                sigs.iter().map(|s| s.tok()).collect::<Vec<_>>().join("|"),
                 name_n.tok(),
                 recs_n.iter().map(|r| format!(" {}", r.tok().unwrap_or_default())).collect::<String>()
             );
+            // the RRSIGs for which verify_default_rrset makes a DNSKEY lookup at all (own computation)
+            let is_candidate = |i: usize, s: &S| {
+                let signer_l = s.signer.lower_labels();
+                let owner_l = name_n.lower_labels();
+                let in_zone = signer_l.len() <= owner_l.len() && signer_l.iter().rev().zip(owner_l.iter().rev()).all(|(a, b2)| a == b2);
+                let ds_self = ty == 43 && !owner_l.is_empty() && signer_l == owner_l && s.signer.fqdn == name_n.fqdn;
+                in_zone && !ds_self && i <= 8
+            };
+            let first_cand: Option<usize> = sigs.iter().enumerate().find(|(i, s)| is_candidate(*i, s)).map(|(i, _)| i);
             HIST.with(|hcell| {
                 let mut hb = hcell.borrow_mut();
                 let h = hb.as_mut()?;
@@ -692,15 +708,19 @@ fn exec_inner(t: &[&str]) -> Option<Out> {
                     std::thread::sleep(Duration::from_millis((inst - h.last_inst) * 1000 + 150));
                     h.last_inst = inst;
                 }
-                CLOCK.store(now as u64, AtOrd::SeqCst);
+                CLOCK.store(clock, AtOrd::SeqCst);
                 {
                     let mut sc = h.up.script.lock().unwrap();
                     sc.answers.clear();
                     let mut ans = records.clone();
-                    ans.push(srec.clone());
+                    ans.extend(srecs.iter().cloned());
                     sc.answers.insert((name_tok(&name_h.to_lowercase()), ty), ans);
-                    let signer = s.signer.to_name()?;
-                    sc.answers.insert((name_tok(&signer.to_lowercase()), 48), ks.iter().map(|k| k.to_record()).collect::<Option<Vec<_>>>()?);
+                    // every signer's DNSKEY query is answered with all served keys (the validator only looks at
+                    // the keys owned by the signer)
+                    for s in &sigs {
+                        let signer = s.signer.to_name()?;
+                        sc.answers.insert((name_tok(&signer.to_lowercase()), 48), ks.iter().map(|k| k.to_record()).collect::<Option<Vec<_>>>()?);
+                    }
                 }
                 h.up.dnskey_queries.store(0, AtOrd::SeqCst);
                 let req = DnsRequest::from_query(query.clone(), DnsRequestOptions::default());
@@ -716,16 +736,24 @@ fn exec_inner(t: &[&str]) -> Option<Out> {
                 };
                 let mut proofs = vec![];
                 let mut ttls = vec![];
-                let mut sig_out = String::new();
+                let mut sig_outs: Vec<String> = vec![];
+                let mut marked: Vec<usize> = vec![];
                 for a in &msg.answers {
                     if a.record_type() == RecordType::RRSIG {
-                        sig_out = format!("{} {}", proof_tok(a.proof), a.ttl);
+                        if a.proof == Proof::Secure {
+                            marked.push(sig_outs.len());
+                        }
+                        sig_outs.push(format!("{} {}", proof_tok(a.proof), a.ttl));
                     } else {
                         proofs.push(a.proof);
                         ttls.push(a.ttl);
                     }
                 }
+                let sig_out = sig_outs.join(" ");
                 let p0 = proofs.first().copied().unwrap_or(Proof::Indeterminate);
+                // the model-side flags are about the first candidate RRSIG; the oracle below is about the RRSIG that
+                // was handed the Secure proof
+                let s: S = sigs[first_cand.unwrap_or(0)].clone();
                 // class flag `validation-cache-outlives-signature`, computed here and by the Lean predicate
                 let dev = !fresh
                     && p0 == Proof::Secure
@@ -734,13 +762,8 @@ fn exec_inner(t: &[&str]) -> Option<Out> {
                 // validation had the same RRSIG but other canonical RDATA
                 let canon_now: Vec<Option<Vec<u8>>> = recs_n.iter().map(|r| r.rd.ref_canon()).collect();
                 let dev2 = !fresh && p0 == Proof::Secure && h.memory.get(&ck).map(|fi| fi.sig == s && fi.canon != canon_now).unwrap_or(false);
-                // since /repo 207ce2a an RRSIG whose signer is not the owner or an ancestor of it is skipped
-                // without a DNSKEY lookup: fresh/cached cannot be told apart (and does not matter)
-                let signer_l = s.signer.lower_labels();
-                let owner_l = name_n.lower_labels();
-                // (since /repo 4f49cf9 also: an RRSIG over a DS RRset that names the DS owner itself as signer)
-                let nolookup = !(signer_l.len() <= owner_l.len() && signer_l.iter().rev().zip(owner_l.iter().rev()).all(|(a, b2)| a == b2))
-                    || (ty == 43 && !owner_l.is_empty() && signer_l == owner_l && s.signer.fqdn == name_n.fqdn);
+                // no candidate RRSIG (207ce2a, 4f49cf9, RRSIG cap): no DNSKEY lookup, fresh/cached cannot be told apart
+                let nolookup = first_cand.is_none();
                 let out = format!(
                     "{} {} {} sig {sig_out} dev={}{}",
                     if nolookup { "nolookup" } else if fresh { "fresh" } else { "cached" },
@@ -753,6 +776,20 @@ fn exec_inner(t: &[&str]) -> Option<Out> {
                 let mut stats = vec![format!("h.{}.{}", if fresh { "fresh" } else { "cached" }, proof_tok(p0))];
                 if proofs.iter().any(|p| *p != p0) {
                     fails.push(("records of one RRset left with different proofs".into(), String::new()));
+                }
+                stats.push(format!("h.rrsigs.{}", sigs.len().min(5)));
+                // the RRSIG that was handed the Secure proof is the one every demand below is about
+                if p0 == Proof::Secure && marked.len() != 1 {
+                    fails.push((format!("Secure RRset with {} RRSIG records marked Secure (exactly the verifying one expected)", marked.len()), String::new()));
+                }
+                if p0 != Proof::Secure && !marked.is_empty() {
+                    fails.push(("an RRSIG record is marked Secure although the RRset is not".into(), String::new()));
+                }
+                let s: S = marked.first().map(|j| sigs[*j].clone()).unwrap_or(s);
+                if sigs.len() > 1 {
+                    if let Some(j) = marked.first() {
+                        stats.push(format!("h.multi.verifying-rrsig-at-{}-of-{}", j, sigs.len().min(5)));
+                    }
                 }
                 // independent oracle
                 let bad_now: Vec<&str> = {
@@ -824,7 +861,8 @@ fn exec_inner(t: &[&str]) -> Option<Out> {
         ["dk", now, anchors, keys, sg] => {
             // implementation only: a DNSKEY query for the root zone through DnssecDnsHandle::send
             // (verify_dnskey_rrset: trust anchors, no DS for the root, RRSIG over the DNSKEY RRset)
-            let now: u32 = now.parse().ok()?;
+            let clock: u64 = now.parse().ok()?;
+            let now: u32 = clock as u32;
             let ks: Vec<K> = keys.split('|').map(K::parse).collect::<Option<Vec<_>>>()?;
             let anchor_idx: Vec<usize> = if *anchors == "-" { vec![] } else { anchors.split(',').map(|x| x.parse().ok()).collect::<Option<Vec<_>>>()? };
             let s = S::parse(sg)?;
@@ -850,7 +888,7 @@ fn exec_inner(t: &[&str]) -> Option<Out> {
                 sc.answers.insert((name_tok(&Name::root()), 48), ans);
             }
             let handle = DnssecDnsHandle::with_trust_anchor(up.clone(), Arc::new(ta));
-            CLOCK.store(now as u64, AtOrd::SeqCst);
+            CLOCK.store(clock, AtOrd::SeqCst);
             let rt = tokio::runtime::Builder::new_current_thread().enable_all().build().ok()?;
             let req = DnsRequest::from_query(Query::new(Name::root(), RecordType::DNSKEY), DnsRequestOptions::default());
             let res = rt.block_on(async move { handle.send(req).first_answer().await });
@@ -879,7 +917,7 @@ fn exec_inner(t: &[&str]) -> Option<Out> {
             }
             let signer_flags = ks.iter().find(|k| ref_key_tag(&k.rdata()) == s.tag).map(|k| k.flags.to_string()).unwrap_or("none".into());
             let stats = vec![format!("dk.{}.signer-flags-{}{}", if secure { "secure" } else { "rejected" }, signer_flags, if bad.is_empty() { ".acceptable" } else { "" })];
-            Some(Out { line: format!("dk {now} {anchors} {} {}", ks.iter().map(|k| k.tok()).collect::<Vec<_>>().join("|"), s.tok()), out: "~".into(), fails, stats, nontrivial: secure || bad.len() == 1 })
+            Some(Out { line: format!("dk {clock} {anchors} {} {}", ks.iter().map(|k| k.tok()).collect::<Vec<_>>().join("|"), s.tok()), out: "~".into(), fails, stats, nontrivial: secure || bad.len() == 1 })
         }
         _ => None,
     }
@@ -912,6 +950,8 @@ fn gen_dk(r: &mut Rng, flags: u16) -> Option<String> {
         _ => {}
     }
     let ai = keys.iter().position(|k| k.pk == ksk.pk)?;
+    // the wall clock is a u64: the same second of the u32 clock, one or several wraps later
+    let now = now as u64 + *r.pick(&[0u64, 0, 1 << 32, 1 << 33, 5 << 32]);
     Some(format!("dk {now} {ai} {} {}", keys.iter().map(|k| k.tok()).collect::<Vec<_>>().join("|"), s.tok()))
 }
 
@@ -1447,6 +1487,22 @@ fn vk_line(b: &Base, kproof: Proof) -> Option<String> {
 }
 
 fn h_line(now: u32, inst: u64, keys: &[K], s: &S, name: &N, ty: u16, recs: &[Rec]) -> Option<String> {
+    h_line_multi(now as u64, inst, keys, std::slice::from_ref(s), name, ty, recs)
+}
+
+/// a history line with a u64 wall clock and all RRSIGs of the RRset in message order
+fn h_line_multi(clock: u64, inst: u64, keys: &[K], sigs: &[S], name: &N, ty: u16, recs: &[Rec]) -> Option<String> {
+    let keys_tok = if keys.is_empty() { "-".to_string() } else { keys.iter().map(|k| format!("{};S", k.tok())).collect::<Vec<_>>().join("|") };
+    let mut l = format!("h {clock} {inst} - {keys_tok} {} {} {ty} -", sigs.iter().map(|s| s.tok()).collect::<Vec<_>>().join("|"), name.tok());
+    for r in recs {
+        l.push(' ');
+        l.push_str(&r.tok()?);
+    }
+    Some(l)
+}
+
+#[allow(dead_code)]
+fn h_line_old(now: u32, inst: u64, keys: &[K], s: &S, name: &N, ty: u16, recs: &[Rec]) -> Option<String> {
     let keys_tok = if keys.is_empty() { "-".to_string() } else { keys.iter().map(|k| format!("{};S", k.tok())).collect::<Vec<_>>().join("|") };
     let mut l = format!("h {now} {inst} - {keys_tok} {} {} {ty} -", s.tok(), name.tok());
     for r in recs {
@@ -1732,6 +1788,131 @@ fn gen_history(r: &mut Rng, kind: u64) -> Option<Vec<String>> {
             lines.push(h_line(t0, 0, &[k2], &s2, &b.name, b.ty, &b.recs)?);
             lines.push(h_line(t0, 0, &keys, &b.s, &b.name, b.ty, &b.recs)?);
         }
+        14 => {
+            // several RRSIGs: the one that verifies (short validity) among non-candidates and failing candidates with
+            // very different validity periods and original TTLs, at the first / a middle / the last position;
+            // then re-validation at later clock values on the same handle
+            let life = *r.pick(&[600u32, 60, 3600]);
+            b.s.inc = *r.pick(&[1_700_000_000u32, 0xFFFF_FF00, 100]);
+            b.s.exp = b.s.inc.wrapping_add(life);
+            let rttl = *r.pick(&[3600u32, 86400, 1000]);
+            for x in b.recs.iter_mut() {
+                x.ttl = rttl;
+            }
+            b.s.ttl = rttl;
+            b.s.ottl = *r.pick(&[rttl, 600, 7200]);
+            resign(&mut b);
+            let t0 = b.s.inc.wrapping_add(1);
+            let good = b.s.clone();
+            let sign_variant = |b: &Base, f: &dyn Fn(&mut S)| -> Option<S> {
+                let mut s2 = b.s.clone();
+                f(&mut s2);
+                let bytes = s2.ref_case(&b.name, 1, &b.recs).ref_signed_data()?;
+                s2.sig = sign_with(b.ki, &bytes);
+                Some(s2)
+            };
+            let ten_years = 315_360_000u32;
+            let mut others: Vec<(&str, S)> = vec![];
+            let n_other = r.range(1, 3);
+            for _ in 0..n_other {
+                let v = match r.below(8) {
+                    0 | 1 => {
+                        // out-of-zone signer, ten-year validity, large original TTL: not even a candidate
+                        let mut j = good.clone();
+                        j.signer = c05::nm(*r.pick(&["unrelated.test.", "example.invalid.", "x.y.z."]));
+                        j.exp = t0.wrapping_add(ten_years);
+                        j.ottl = 1_000_000;
+                        j.ttl = 1000;
+                        j.sig = r.bytes(64);
+                        ("foreign-signer", j)
+                    }
+                    2 => {
+                        if r.chance(1, 2) && good.labels > 0 {
+                            // genuinely signed for a wildcard expansion that this owner is not
+                            ("labels-below", sign_variant(&b, &|s| {
+                                s.labels -= 1;
+                                s.exp = t0.wrapping_add(ten_years);
+                            })?)
+                        } else {
+                            let mut j = good.clone();
+                            j.labels = j.labels.wrapping_add(1);
+                            j.exp = t0.wrapping_add(ten_years);
+                            j.sig = r.bytes(64);
+                            ("labels-above", j)
+                        }
+                    }
+                    3 => {
+                        let mut j = good.clone();
+                        j.alg = 253;
+                        j.exp = t0.wrapping_add(ten_years);
+                        j.sig = r.bytes(64);
+                        ("unsupported-algorithm", j)
+                    }
+                    4 => ("expired", sign_variant(&b, &|s| {
+                        s.exp = t0.wrapping_sub(10);
+                        s.inc = t0.wrapping_sub(100_000);
+                    })?),
+                    5 => ("not-yet-valid", sign_variant(&b, &|s| {
+                        s.inc = t0.wrapping_add(50_000);
+                        s.exp = t0.wrapping_add(ten_years);
+                        s.ottl = 500_000;
+                    })?),
+                    6 => {
+                        let mut j = sign_variant(&b, &|s| {
+                            s.exp = t0.wrapping_add(ten_years);
+                            s.ottl = 900_000;
+                        })?;
+                        flip_bit(&mut j.sig, r);
+                        ("bad-signature-long-validity", j)
+                    }
+                    _ => {
+                        // a second genuinely valid RRSIG with a much longer validity
+                        ("second-valid-long", sign_variant(&b, &|s| {
+                            s.exp = t0.wrapping_add(ten_years);
+                            s.ottl = 50_000;
+                        })?)
+                    }
+                };
+                others.push(v);
+            }
+            let pos = r.below(others.len() as u64 + 1) as usize;
+            let mut sigs: Vec<S> = others.iter().map(|(_, s)| s.clone()).collect();
+            sigs.insert(pos, good.clone());
+            for dt in [0u32, life / 2, life - 2, life + 1, life + 4000, 50_001, ten_years / 2] {
+                if dt == 0 || r.chance(2, 3) {
+                    lines.push(h_line_multi(t0.wrapping_add(dt) as u64, 0, &keys, &sigs, &b.name, b.ty, &b.recs)?);
+                }
+            }
+        }
+        15 => {
+            // the u64 wall clock around and beyond 2^32, RRSIG windows spanning the serial-number wrap or lying
+            // just after it: the verdict depends on the clock only modulo 2^32
+            let two32: u64 = 1 << 32;
+            let (inc, exp): (u32, u32) = *r.pick(&[(0xFFFF_FE00u32, 0x0000_0200u32), (0xFFFF_FFF0, 0x10), (100, 5000), (0xFFFF_0000, 0xFFFF_FF00), (0, 600)]);
+            b.s.inc = inc;
+            b.s.exp = exp;
+            let rttl = *r.pick(&[3600u32, 0, 300]);
+            for x in b.recs.iter_mut() {
+                x.ttl = rttl;
+            }
+            b.s.ttl = rttl;
+            b.s.ottl = rttl;
+            resign(&mut b);
+            let width = exp.wrapping_sub(inc) as u64;
+            let base = inc as u64; // seconds of the u32 clock at which the window opens
+            let wraps = *r.pick(&[0u64, 1, 1, 2, 5]);
+            let mut clocks: Vec<u64> = vec![];
+            for k in [wraps, wraps + 1] {
+                let o = base + k * two32;
+                clocks.extend([o.saturating_sub(1), o, o + 1, o + width / 2, o + width, o + width + 1]);
+            }
+            clocks.extend([two32 - 1, two32, two32 + 1, 2 * two32 + 5, u32::MAX as u64]);
+            for c in clocks {
+                if r.chance(3, 5) {
+                    lines.push(h_line_multi(c, 0, &keys, std::slice::from_ref(&b.s), &b.name, b.ty, &b.recs)?);
+                }
+            }
+        }
         _ => {
             // wrong key first (Bogus is cached), then the right key; and the reverse
             resign(&mut b);
@@ -1974,11 +2155,11 @@ pub fn run(o: &Opts, rec: &mut Recorder) {
             exec(&l, rec);
         }
     }
-    for i in 0..o.n(840, 28_000) {
+    for i in 0..o.n(1020, 34_000) {
         let mut rr = r.fork();
-        match catch(move || gen_history(&mut rr, i as u64 % 14)) {
+        match catch(move || gen_history(&mut rr, i as u64 % 17)) {
             Ok(Some(h)) => {
-                rec.stat(&format!("history.kind.{}", i % 14));
+                rec.stat(&format!("history.kind.{}", i % 17));
                 for l in h {
                     exec(&l, rec);
                 }
